@@ -298,3 +298,31 @@ package tally
 //@   allocs
 //@   ensures @fresh result != nil && fresh(result)
 //@   ensures @zero result.curr == 0 && result.updated == 0 && same(result.cachedGauge, cachedGauge)
+
+// ---------------------------------------------------------------------------
+// C03 / C20: bucket pairs, constructors, bucket storage
+
+//@ closed interface BucketPair = bucketPair
+
+//@ pred upv(p BucketPair) { dyn(p, bucketPair).upperBoundValue }
+//@ pred lov(p BucketPair) { dyn(p, bucketPair).lowerBoundValue }
+//@ pred upd(p BucketPair) { dyn(p, bucketPair).upperBoundDuration }
+//@ pred lod(p BucketPair) { dyn(p, bucketPair).lowerBoundDuration }
+
+//@ func copyAndSortValues
+//@   property C03, C20
+//@   allocs
+//@   ensures @fresh len(result) == len(values) && (len(values) > 0 ==> fresh(result)) && result.off == 0
+//@   ensures @sorted forall i, j int :: 0 <= i && i <= j && j < len(result) ==> !(result[j] < result[i])
+//@   ensures @elements_from_input forall i int :: 0 <= i && i < len(result) ==> (exists j int :: 0 <= j && j < len(values) && same(result[i], values[j]))
+//@   ensures @input_elements_kept forall j int :: 0 <= j && j < len(values) ==> (exists i int :: 0 <= i && i < len(result) && same(result[i], values[j]))
+//@   ensures @quiet quiet()
+
+//@ func copyAndSortDurations
+//@   property C03, C20
+//@   allocs
+//@   ensures @fresh len(result) == len(durations) && (len(durations) > 0 ==> fresh(result)) && result.off == 0
+//@   ensures @sorted forall i, j int :: 0 <= i && i <= j && j < len(result) ==> result[i] <= result[j]
+//@   ensures @elements_from_input forall i int :: 0 <= i && i < len(result) ==> (exists j int :: 0 <= j && j < len(durations) && result[i] == durations[j])
+//@   ensures @input_elements_kept forall j int :: 0 <= j && j < len(durations) ==> (exists i int :: 0 <= i && i < len(result) && result[i] == durations[j])
+//@   ensures @quiet quiet()
